@@ -14,7 +14,8 @@ use std::sync::Arc;
 use std::time::{Duration, Instant};
 
 pub fn quick_configs() -> u64 {
-    8
+    // every combination of runtime type x threads {1,2,8} x eviction policy once
+    12
 }
 
 pub fn thorough_configs() -> u64 {
@@ -36,7 +37,7 @@ pub fn generate(run_seed: u64, index: u64, _tier: Tier) -> Case {
     // (it only matters to the random eviction policy, which never refuses a store)
     let memory = *rng.pick(&["1GiB", "64MiB", "16KiB", "512B"]);
     let port = 12000 + (index % 20000);
-    let ttl_probe = index % 8 == 7;
+    let ttl_probe = index % 6 == 5;
     Case {
         kind: "startup".into(),
         data: json!({
